@@ -245,6 +245,13 @@ class NPW:
     def exp(self, a):
         return _ew(_exp1)(a)
 
+    def expm1(self, a):
+        # exp(x) - 1 over the same uninterpreted exp (its argument is recorded for the overflow obligations)
+        return _ew(lambda x: _exp1(x) - 1.0 if is_sym(x) else float(np.expm1(x)))(a)
+
+    def log1p(self, a):
+        return _ew(lambda x: _log1(1.0 + x) if is_sym(x) else float(np.log1p(x)))(a)
+
     def log(self, a):
         return _ew(_log1)(a)
 
@@ -827,6 +834,31 @@ class SymAtoms(_Atoms):
             self.arrays[name] = n
         else:
             b[:] = a
+
+    def wrap(self, **wrap_kw):
+        """ase.geometry.wrap_positions on proxies: f' = ((f - shift) mod 1) + shift along periodic directions,
+        f = fractional coordinates, shift = center - 0.5 - eps (ase's defaults); written, as ase does, straight
+        into the positions (no constraint is consulted)."""
+        pos = np.asarray(self.arrays["positions"], dtype=object)
+        if not has_sym(pos) and not has_sym(np.asarray(self.cell.array, dtype=object)):
+            return super().wrap(**wrap_kw)
+        pbc = wrap_kw.get("pbc", self.pbc)
+        pbc = [bool(pbc)] * 3 if np.ndim(pbc) == 0 else [bool(b) for b in pbc]
+        center = np.broadcast_to(np.asarray(wrap_kw.get("center", (0.5, 0.5, 0.5)), dtype=float), (3,))
+        eps = float(wrap_kw.get("eps", 1e-7))
+        cell = np.asarray(self.cell.array, dtype=object)
+        frac = pos @ inv3(cell)
+        out = np.empty_like(frac)
+        for i in range(len(pos)):
+            for k in range(3):
+                f = frac[i, k]
+                if pbc[k]:
+                    sh = float(center[k]) - 0.5 - eps
+                    y = f - sh
+                    y = y - (y.floor() if isinstance(y, SR) else float(np.floor(y)))
+                    f = y + sh
+                out[i, k] = f
+        self.arrays["positions"] = objectify(out @ cell)
 
     def set_positions(self, newpositions, apply_constraint=True):
         if self.constraints and apply_constraint:
